@@ -382,7 +382,7 @@ def register(kernel):
            model_name="Observables.to_pm1 (bit 0 -> -1, bit 1 -> +1)", imports=["Bits", "Observables"],
            tactic="intros; cbv [GEN Observables.to_pm1 two]; tie_vec_norm; lra")
     kernel("C08", name="sigma_z", file="qucumber/observables/pauli.py", func="SigmaZ.apply", vec=True, inputs=[("samples", "s", "BV")],
-           unused_params=["nn_state"], hole_types={"x": F},
+           unused_params=["nn_state"], hole_types={"x": F}, fresh_calls=["to_pm1"],
            atoms=[("to_pm1($x)", "(Observables.to_pm1 ROps $x)", F), ("self.absolute", "absolute", B)],
            coq_params=[("absolute", "bool"), ("s", "bits")], result=F, thm_params=[("absolute", "bool"), ("s", "bits")], gen_args="absolute s",
            model="sigma_z ROps absolute s", model_name="Observables.sigma_z", imports=["Bits", "Observables"],
@@ -450,7 +450,7 @@ def register(kernel):
     # ------------------------------------------------------------------ C04: the index arithmetic of _kron_mult
     # loop-carried l, r and the loop variables k, i are inputs (the theorems quantify over them); n[s] is the matrix size of site s
     km = dict(file="qucumber/utils/unitaries.py", func="_kron_mult", kind="local", inputs=[], atoms=[("n[s]", "ns", Z)],
-              carried={"l": ("l", Z), "r": ("r", Z)}, loop_vars={"k": ("k", Z), "i": ("i", Z)}, imports=["KronIndex"])
+              carried={"l": ("l", Z), "r": ("r", Z)}, loop_vars={"k": ("k", Z), "i": ("i", Z)}, imports=["KronIndex"], pin_skeleton=True)
     kernel("C04", name="kron_slice", target="slc", coq_params=[("ns", "Z"), ("r", "Z"), ("k", "Z"), ("i", "Z")], result=(Z, Z, Z),
            thm_params=[("r", "nat"), ("k", "nat"), ("i", "nat")], hyps=["(i < r)%nat"], gen_args="2%Z (Z.of_nat r) (Z.of_nat k) (Z.of_nat i)", model="",
            stmt="let '(start, stop, step) := GEN 2%Z (Z.of_nat r) (Z.of_nat k) (Z.of_nat i) in "
@@ -474,7 +474,7 @@ def register(kernel):
            model="swap_mask A s1 s2", model_name="Observables.swap_mask (sites in the region exchanged, the others kept)",
            tactic="intros; cbv [GEN]; rewrite swap_mask_bmerge; reflexivity", **sw)
     kernel("C09", name="swap_apply_pair", func="SWAP.apply", inputs=[("samples", "s1", "BV")], unused_params=["nn_state"],
-           hole_types={"a": "BV", "b": "BV", "x": "C", "y": "C", "s": "BV"},
+           hole_types={"a": "BV", "b": "BV", "x": "C", "y": "C", "s": "BV"}, hole_must={"s": "s1"},
            atoms=[("torch.roll($s, 1, 0)", "s2", "BV"), ("self.A", "A", "MASK"),
                   ("nn_state.importance_sampling_weight($a, $b)", "(is_weight ROps st $a $b)", "C"),
                   ("cplx.elementwise_mult($x, $y)", "(cmul ROps $x $y)", "C")],
@@ -509,7 +509,7 @@ def register(kernel):
                          "GEN pos (p_energy_grad_batch ROps am) vk neg samples = cbg_purification ROps am pos neg vk",
                          "intros; rewrite TIE; reflexivity")])
     kernel("C06", name="vector_to_grads_pointer", file="qucumber/utils/gradients_utils.py", func="vector_to_grads", kind="local", target="pointer",
-           inputs=[], atoms=[("param.numel()", "n", Z)], carried={"pointer": ("pointer", Z), "num_param": ("n", Z)},
+           inputs=[], atoms=[("param.numel()", "n", Z)], carried={"pointer": ("pointer", Z)}, pin_skeleton=True,
            coq_params=[("pointer", "Z"), ("n", "Z")], result=Z, thm_params=[("pointer", "nat"), ("s", "shape")],
            gen_args="(Z.of_nat pointer) (Z.of_nat (numel s))", model="Z.of_nat (pointer + numel s)",
            model_name="CDStep.v2g_from (the next parameter starts where this one's numel entries end)", imports=["CDStep"],
